@@ -314,27 +314,30 @@ package cl
 // dolist / dotimes: the result form sees the loop variable bound as the
 // language defines (nil after dolist, the count after dotimes).
 //@ func cl.(*Dolist).Call
-//@   property C01
+//@   property C01 C07
+//@   loop i<len(args)#2: exit go-resumes-at-its-tag: i < len(args) ==> args[i] == tr.Tag
 //@   option trace
 //@   at-eval result-form-sees-nil: ($kind == 2 && $obj == rform && $n >= 1) ==> (has(ns.Vars, sym) && ns.Vars[sym] == nil)
 //@   at-eval body-scope: ($kind == 1) ==> ($scope == ns && $scope != s)
 
 //@ func cl.(*Dotimes).Call
-//@   property C01
+//@   property C01 C07
 //@   option trace
 //@   at-eval body-scope: ($kind == 1) ==> ($scope == ns && $scope != s)
+//@   loop i<len(args)#2: exit go-resumes-at-its-tag: i < len(args) ==> args[i] == tr.Tag
 
 // do: init forms are evaluated in the enclosing scope (parallel binding), the
 // end test, result forms, body and step forms in the new scope.
 //@ func cl.setupDo
 //@   property C01
 //@   option trace
-//@   requires distinct-scopes: s != ns
 //@   ensures init-outer: forall k :: (old($n) <= k && k < $n && $ek[k] == 1) ==> $escope[k] == s
 //@   loop rangeindex: invariant init-outer: old($n) <= $n && (forall k :: (old($n) <= k && k < $n) ==> $escope[k] == s)
 
 //@ func cl.(*Do).Call
-//@   property C01
+//@   property C01 C07
+//@   on-call setupDo distinct-scopes: $arg0 == s && $arg1 != s
+//@   loop i<len(args)#2: exit go-resumes-at-its-tag: i < len(args) ==> args[i] == tr.Tag
 //@   option trace
 //@   at-eval new-scope: ($n > 0) ==> true
 
@@ -742,3 +745,20 @@ package cl
 //@ func cl.(*TypeOf).Call
 //@   property C16
 //@   ensures first-hierarchy-entry: (args[0] != nil && !is(args[0], slip.List)) ==> result0 == box(Hierarchy(args[0])[0], slip.Symbol)
+
+// C07: go transfers control to the matching tag of the enclosing body: when the
+// search for the target of a go marker stops inside the body, it stands on that tag
+// (the form after it is the next one evaluated).
+//@ func cl.(*Tagbody).Call
+//@   property C07
+//@   loop i<len(args)#2: exit go-resumes-at-its-tag: i < len(args) ==> args[i] == gt.Tag
+//@ func cl.(*Dox).Call
+//@   property C01 C07
+//@   on-call setupDo sequential-binding-in-the-new-scope: $arg0 == $arg1 && $arg0 != s
+//@   loop i<len(args)#2: exit go-resumes-at-its-tag: i < len(args) ==> args[i] == tr.Tag
+//@ func cl.(*Prog).Call
+//@   property C07
+//@   loop i<len(args)#2: exit go-resumes-at-its-tag: i < len(args) ==> args[i] == tr.Tag
+//@ func cl.(*Progx).Call
+//@   property C07
+//@   loop i<len(args)#2: exit go-resumes-at-its-tag: i < len(args) ==> args[i] == tr.Tag
